@@ -51,6 +51,19 @@ def run(tier, v):
         if r[0] == "panic" or len(missing) != want_missing:
             v.violation("token-elsewhere-counts:%s" % where, {"file": code, "got": repr(r)}, replay_files={"case.rs": code})
     v.subspace("valid token in target / key-value string / trailing argument / mid-message / neighbouring statement", len(cases))
+    # CLI binding: every message of length <= 3 (5 framings) as a file through --check and edit
+    import itertools
+    import clibind
+    S12 = ["[", "]", "r", "e", "f", ":", " ", "0", "1", "9", "\u0663", "x"]
+    msgs = set()
+    for L in range(0, 4):
+        for t in itertools.product(S12, repeat=L):
+            m = "".join(t)
+            for a, b in (("", ""), ("[ref: ", ""), ("[ref:", ""), ("[ref", ""), ("", "[ref: 1] x")):
+                msgs.add(a + m + b)
+    msgs = sorted(msgs)
+    nb, nf = clibind.bind(msgs, lambda m: (gen.cfg_index(0, False), 'fn f() { info!("%s"); }\n' % m, None, m), v)
+    v.subspace("CLI binding: every message of length <= 3 over the alphabet (5 framings) as a file through --check and edit", nb)
     # inserted token for every N
     if tier == "thorough":
         ranges = [(1, 0xFFFFFFFF)]
